@@ -3,6 +3,7 @@ package main
 import (
 	"fmt"
 	"go/ast"
+	"go/printer"
 	"go/token"
 	"go/types"
 	"os"
@@ -39,7 +40,7 @@ const prelude = `(set-option :produce-models true)
 (assert (forall ((a Slice) (b Slice)) (! (=> (and (= (slen a) (slen b)) (forall ((j Int)) (=> (and (<= (soff a) j) (< j (+ (soff a) (slen a)))) (= (memB (sbase a) j) (memB (sbase b) (+ (- j (soff a)) (soff b))))))) (bytesEq a b)) :pattern ((bytesEq a b)))))
 (assert (forall ((a Slice)) (! (bytesEq a a) :pattern ((bytesEq a a)))))
 (declare-fun cid (Slice) Int)
-(assert (forall ((a Slice) (b Slice)) (! (=> (bytesEq a b) (= (cid a) (cid b))) :pattern ((bytesEq a b)))))
+(assert (forall ((a Slice) (b Slice)) (! (= (bytesEq a b) (= (cid a) (cid b))) :pattern ((bytesEq a b)))))
 (declare-fun catS (Slice Slice) Slice)
 (assert (forall ((a Slice) (b Slice)) (! (and (= (slen (catS a b)) (+ (slen a) (slen b))) (= (soff (catS a b)) 0) (< 1 (sbase (catS a b)))
   (forall ((j Int)) (! (=> (and (<= 0 j) (< j (slen a))) (= (memB (sbase (catS a b)) j) (memB (sbase a) (+ (soff a) j)))) :pattern ((memB (sbase (catS a b)) j))))
@@ -157,7 +158,11 @@ func verifDir() string {
 }
 
 func (p *Program) nodeSource(n ast.Node) string {
-	return ""
+	var sb strings.Builder
+	if err := printer.Fprint(&sb, p.fset, n); err != nil {
+		return ""
+	}
+	return sb.String()
 }
 
 // FuncResult is the outcome of generating VCs for one function.
@@ -273,7 +278,7 @@ func verifyFuncBeh(prog *Program, key string, beh *Behavior) (res *FuncResult) {
 	}()
 	sig := fn.Type().(*types.Signature)
 	// loop contracts must match loops
-	li := loopIndex(decl.Body)
+	li := alignLoops(decl.Body, fc)
 	for n := range fc.Loops {
 		found := false
 		for _, m := range li {
@@ -366,6 +371,10 @@ func verifyFuncBeh(prog *Program, key string, beh *Behavior) (res *FuncResult) {
 			}
 		}
 		ex.curPos = decl.Pos()
+		if len(fc.GhostSets) > 0 {
+			ex.applyGhostSets(post, fc, true)
+			post.st = ex.st
+		}
 		if suffix == "" || !ex.exitsChecked {
 			// (per-exit checks run before exitsChecked is set; the frame is checked once, on the merged exit state)
 		}
@@ -420,7 +429,7 @@ func verifyFuncBeh(prog *Program, key string, beh *Behavior) (res *FuncResult) {
 				ex.assume(And(ex.typeFact(p.Type(), v), Lt(I(0), v)))
 				largs = append(largs, Val{v, p.Type()})
 			}
-			ex.code = append(ex.code, &codeCtx{name: "iterbody", pkg: pkg, fc: fc, loopIdx: loopIndex(decl.Body)})
+			ex.code = append(ex.code, &codeCtx{name: "iterbody", pkg: pkg, fc: fc, loopIdx: alignLoops(decl.Body, fc)})
 			ex.inlineBody("iterbody@"+ex.posString(c.lit.Pos()), lsig, c.lit.Type, c.lit.Body, nil, nil, largs, pkg, fc, false)
 			ex.code = ex.code[:len(ex.code)-1]
 		} else {
@@ -441,6 +450,11 @@ func verifyFuncBeh(prog *Program, key string, beh *Behavior) (res *FuncResult) {
 	res.Errors = dedupe(ex.errs)
 	res.Drift = append(res.Drift, ex.drift...)
 	for _, cc := range fc.Callsites {
+		if !ex.callsitesUsed[cc] && cc.Stmt {
+			// an intermediate assertion that matches nothing only makes later obligations harder to prove
+			res.Warnings = append(res.Warnings, fmt.Sprintf("%s: at %q matches no statement", key, cc.CallText))
+			continue
+		}
 		if !ex.callsitesUsed[cc] {
 			res.Drift = append(res.Drift, fmt.Sprintf("%s: callsite %q matches no call expression", key, cc.CallText))
 		}
@@ -556,6 +570,9 @@ func (r *FuncResult) queryMode(o *Obl, withModel, local bool) string {
 		sb.WriteByte('\n')
 	}
 	for fi, f := range r.Facts[:o.NFacts] {
+		if o.Excl[fi] {
+			continue
+		}
 		// facts assumed inside a loop body only concern states that went through that body
 		if fi < len(r.FactScopes) {
 			skip := false
